@@ -61,6 +61,8 @@ for d in sorted(glob.glob(os.path.join(VERIF, "seeded", "C*-*"))):
         notes = open(np_).read()
     confirm = open(os.path.join(d, "confirm.txt")).read() if os.path.exists(os.path.join(d, "confirm.txt")) else ""
     detected = prop in fired
+    if not detected and prop in other:
+        detected = "exit 2 (inconclusive / analysis-error, not silent)"
     meta = {
         "id": sid,
         "breaks_property": prop,
@@ -73,9 +75,11 @@ for d in sorted(glob.glob(os.path.join(VERIF, "seeded", "C*-*"))):
     }
     json.dump(meta, open(os.path.join(d, "meta.json"), "w"), indent=1)
     rows.append((sid, prop, detected, fired, meta["needs"]))
-    print(sid, "DETECTED" if detected else "missed", fired, other)
+    print(sid, "DETECTED" if detected is True else ("EXIT2" if detected else "missed"), fired, other)
 with open(os.path.join(VERIF, "seeded", "RESULTS.md"), "w") as fh:
     fh.write("# Seeded changes vs checks\n\n| seed | property | detected by its property's check | what fired | analysis-error/inconclusive |\n|---|---|---|---|---|\n")
     for sid, prop, det, fired, needs in rows:
-        fh.write("| %s | %s | %s | %s | |\n" % (sid, prop, det, "; ".join("%s: %s" % (k, ", ".join(v)) for k, v in fired.items())))
-print("detected %d / %d" % (sum(1 for r in rows if r[2] is True), len(rows)))
+        fh.write("| %s | %s | %s | %s | |\n" % (sid, prop, det, "; ".join("%s: %s" % (k, ", ".join(v)) for k, v in sorted(fired.items()))))
+print("detected (exit 1 by own property) %d / %d; exit 2 only: %d; silent: %d" % (
+    sum(1 for r in rows if r[2] is True), len(rows), sum(1 for r in rows if isinstance(r[2], str) and r[2].startswith("exit 2")),
+    sum(1 for r in rows if r[2] is False)))
